@@ -87,7 +87,7 @@ def parseOpts (s : String) (fac : Factory) : Option Opts := do
     else if let some b := parseBit kv "ml" then o := { o with ml := b }
     else if let some b := parseBit kv "dl" then o := { o with dl := b }
     else if let some _ := parseBit kv "lw" then o := o
-    else if let some n := (stripPrefix? kv "rbs").bind String.toNat? then o := { o with rbs := n }
+    else if let some _ := (stripPrefix? kv "rbs").bind String.toNat? then o := o
     else none
   return o
 
